@@ -68,6 +68,60 @@ impl<D: Driver> Driver for Logging<D> {
     }
 }
 
+/// Wraps a driver and audits every step of a real run: the terms of the chosen decomposition
+/// (through the one-step hook) must sum to the value of the diagram they replace.  The first
+/// discrepancy is kept; the run itself goes on unchanged.
+#[derive(Clone, Debug)]
+struct Audit<D: Driver> {
+    inner: D,
+    first_error: Arc<Mutex<Option<String>>>,
+    steps: Arc<Mutex<usize>>,
+}
+
+impl<D: Driver> std::fmt::Display for Audit<D> {
+    fn fmt(&self, f: &mut std::fmt::Formatter<'_>) -> std::fmt::Result {
+        write!(f, "Audit({})", self.inner)
+    }
+}
+
+impl<D: Driver> Driver for Audit<D> {
+    fn choose_decomp(&self, g: &impl GraphLike) -> Decomp {
+        let d = self.inner.choose_decomp(g);
+        *self.steps.lock().unwrap() += 1;
+        if self.first_error.lock().unwrap().is_some() || !g.inputs().is_empty() || !g.outputs().is_empty() {
+            return d;
+        }
+        let value = |h: &dyn Fn() -> Result<Option<Vec<Zw>>, String>| h();
+        let res: Result<(), String> = (|| {
+            let Some(want) = value(&|| tensor_of(g))? else { return Ok(()) };
+            if matches!(&d, Decomp::TDecomp(v) if v.is_empty()) {
+                return Ok(());
+            }
+            let terms = crate::engine::catch(|| verif_apply_decomp(g, &d)).map_err(|p| format!("apply {d} panicked: {p}"))?;
+            let mut sum = Zw::ZERO;
+            for t in &terms {
+                let Some(x) = tensor_of(t)? else { return Ok(()) };
+                sum = sum.add(&x[0]);
+            }
+            if sum != want[0] {
+                let snap = snapshot(g).map(|s| format!("{:?}", s.diag)).unwrap_or_default();
+                return Err(format!(
+                    "step {} of the run: the {} terms of {d} sum to {sum:?}, the diagram they replace denotes {:?}; diagram: {}",
+                    *self.steps.lock().unwrap(),
+                    terms.len(),
+                    want[0],
+                    snap.chars().take(1500).collect::<String>()
+                ));
+            }
+            Ok(())
+        })();
+        if let Err(e) = res {
+            *self.first_error.lock().unwrap() = Some(e);
+        }
+        d
+    }
+}
+
 /// Draws valid, T-count-reducing decompositions from a generated word stream.
 #[derive(Clone, Debug)]
 struct Scripted {
@@ -113,9 +167,15 @@ fn cats_of(g: &impl GraphLike) -> Vec<Vec<V>> {
         if g.vertex_type(v) == VType::Z && g.phase(v).is_pauli() && g.vars(v).is_empty() {
             let mut nb = g.neighbor_vec(v);
             nb.sort();
+            // quizx's cat decomposition is specified on graph-like neighbourhoods ("the graph g is
+            // assumed to be graph-like", cat_ts): every leg may only have Hadamard edges to Z
+            // spiders - without inter-step simplification earlier replacements leave plain edges
             if (3..=6).contains(&nb.len())
                 && nb.iter().all(|&n| {
-                    g.vertex_type(n) == VType::Z && g.phase(n).is_t() && g.edge_type(v, n) == EType::H
+                    g.vertex_type(n) == VType::Z
+                        && g.phase(n).is_t()
+                        && g.edge_type(v, n) == EType::H
+                        && g.incident_edges(n).all(|(m, et)| g.vertex_type(m) == VType::Z && et == EType::H)
                 })
             {
                 let mut c = vec![v];
@@ -266,8 +326,13 @@ fn run_driver<G: GraphLike, D: Driver>(
         }
         for split in [cfg.split, !cfg.split] {
             let log = Arc::new(Mutex::new(vec![]));
+            let audit_main = Arc::new(Mutex::new(None));
             let ld = Logging {
-                inner: driver.clone(),
+                inner: Audit {
+                    inner: driver.clone(),
+                    first_error: if si == 0 && split == cfg.split && cfg.words.len() % 4 == 0 { audit_main.clone() } else { Arc::new(Mutex::new(Some(String::new()))) },
+                    steps: Arc::new(Mutex::new(0)),
+                },
                 log: log.clone(),
             };
             let what = format!("{name} simp={simp:?} split={split}");
@@ -277,6 +342,9 @@ fn run_driver<G: GraphLike, D: Driver>(
                 d.decompose(&ld);
                 d.scalar()
             })?;
+            if let Some(e) = audit_main.lock().unwrap().clone() {
+                return Err(format!("{what}: {e}"));
+            }
             let got = zw_scalar(&s).map_err(|e| format!("{what}: {e}"))?;
             if got != *want {
                 return Err(format!(
@@ -326,18 +394,34 @@ fn run_driver<G: GraphLike, D: Driver>(
                     }
                 }
                 d3.with_split_graphs_components(split);
+                let log3 = Arc::new(Mutex::new(vec![]));
+                let audit = Arc::new(Mutex::new(None));
+                let ld3 = Logging {
+                    inner: Audit {
+                        inner: driver.clone(),
+                        first_error: audit.clone(),
+                        steps: Arc::new(Mutex::new(0)),
+                    },
+                    log: log3.clone(),
+                };
                 let s3 = guarded(&format!("{what}: decompose, set_target, decompose"), || {
-                    d3.decompose(&driver);
+                    d3.decompose(&ld3);
                     let first = d3.scalar();
+                    log3.lock().unwrap().push("|");
                     d3.set_target(g.clone());
-                    d3.decompose(&driver);
+                    d3.decompose(&ld3);
                     (first, d3.scalar())
                 })?;
+                if let Some(e) = audit.lock().unwrap().clone() {
+                    return Err(format!("{what}: {e}"));
+                }
+                obs.class("audited-run");
                 for (k, s) in [(1, s3.0), (2, s3.1)] {
                     let got3 = zw_scalar(&s).map_err(|e| format!("{what}: {e}"))?;
                     if got3 != *want {
                         return Err(format!(
-                            "{what}: run {k} of a re-targeted decomposer (set_target) returned {got3:?}, the diagram denotes {want:?}"
+                            "{what}: run {k} of a re-targeted decomposer (set_target) returned {got3:?}, the diagram denotes {want:?}; replacements of the two runs: {:?}",
+                            log3.lock().unwrap()
                         ));
                     }
                 }
@@ -824,7 +908,7 @@ pub fn def(ctx: &Ctx) -> PropertyDef {
     ];
     PropertyDef {
         id: "C05",
-        rule: "closed graph-like diagrams (Z spiders, Hadamard edges, phases k pi/4, T-count <= 7 (9), planted cat-3..6 stars with hub 0 or pi, gadgets, pivot pairs, several components) in both backends, and closed diagrams from Clifford+T circuits with basis states plugged (simplification enabled): Decomposer::scalar() read exactly == brute-force exact evaluation, for drivers BSS-only and BSS+cats (first/random T), dynamic-T, Sherlock (generated tries), spider-cutting and a scripted driver drawing valid decompositions from the generated stream, x {NoSimp, Clifford, Full} x split {off,on}; decompose_parallel in rayon pools of 1..16 threads == the same value. One-step clause: sum of the evaluated terms of verif_apply_decomp(g, driver.choose_decomp(g)) == evaluated g on closed and open hosts. Saved-terms clause: open hosts, BSS-only / BSS+cats with saving, splitting off: every saved term has T-count 0 and the evaluated terms sum to the evaluated original. Non-trivial = T-count >= 2 (and >= 2 saved terms on an open host); per replacement kind for the step clause.",
+        rule: "closed graph-like diagrams (Z spiders, Hadamard edges, phases k pi/4, T-count <= 7 (9), planted cat-3..6 stars with hub 0 or pi, gadgets, pivot pairs, several components) in both backends, and closed diagrams from Clifford+T circuits with basis states plugged (simplification enabled): Decomposer::scalar() read exactly == brute-force exact evaluation, for drivers BSS-only and BSS+cats (first/random T), dynamic-T, Sherlock (generated tries), spider-cutting and a scripted driver drawing valid decompositions from the generated stream, x {NoSimp, Clifford, Full} x split {off,on}; decompose_parallel in rayon pools of 1..16 threads == the same value. Audited runs: in the re-targeted runs and a quarter of the main runs every step the driver takes is audited through the one-step hook (terms must sum to the diagram they replace). One-step clause: sum of the evaluated terms of verif_apply_decomp(g, driver.choose_decomp(g)) == evaluated g on closed and open hosts. Saved-terms clause: open hosts, BSS-only / BSS+cats with saving, splitting off: every saved term has T-count 0 and the evaluated terms sum to the evaluated original. Non-trivial = T-count >= 2 (and >= 2 saved terms on an open host); per replacement kind for the step clause.",
         assumptions: vec![
             "harness evaluator (see selftest); the decomposer's scalar is read through the raw-parts hook",
             "the library's random drivers call rand::rng(): their choice is not a function of VERIF_SEED (the oracle does not depend on the choice)",
